@@ -107,3 +107,42 @@ def loopfree_paths(b, limit=2000):
             go(nxt, taken, seen)
     go(0, [], frozenset())
     return out
+
+
+def facts(body, du, bb, depth=0):
+    """[(origin of a tested condition, truth)] that held on every path to bb: the edge conditions, and - when a
+    tested boolean is a join such as `let ok = a && b;` (definitions: `false`/`true` constants and one computed
+    value) - the computed definition and the conditions under which it was evaluated"""
+    out = []
+    if depth > 4:
+        return out
+    for sw, v, _tb in edge_conditions(body, bb):
+        tm = body.blocks[sw].term
+        tr = truth(tm, v)
+        if tm.discr is None or tm.discr.kind not in ("copy", "move"):
+            continue
+        o = du.origin(tm.discr)
+        out.append((o, tr))
+        if tr is None or o[0] != "local":
+            continue
+        defs = du.defs.get(o[1], [])
+        live = []
+        for kind, db, x in defs:
+            if kind == "stmt" and x.rv.kind == "use" and x.rv.ops[0].kind == "const" and \
+                    x.rv.ops[0].info.get("v") in (0, 1):
+                if bool(x.rv.ops[0].info["v"]) == tr:
+                    live.append((kind, db, x))       # a constant definition with the observed value
+                continue
+            live.append((kind, db, x))
+        if len(live) == 1 and not (live[0][0] == "stmt" and live[0][2].rv.kind == "use" and
+                                    live[0][2].rv.ops[0].kind == "const"):
+            kind, db, x = live[0]
+            if kind == "stmt" and x.rv.kind == "bin":
+                out.append((("bin", x.rv.op, du.origin(x.rv.ops[0]), du.origin(x.rv.ops[1])), tr))
+            elif kind == "stmt" and x.rv.kind == "use":
+                out.append((du.origin(x.rv.ops[0]), tr))
+            elif kind == "call":
+                nm = x.callee.target_p() if x.callee.indirect is None else "<indirect>"
+                out.append((("call", nm, [du.origin(a) for a in x.args]), tr))
+            out += facts(body, du, db, depth + 1)
+    return out
